@@ -376,12 +376,12 @@ class BuildExecutionContext(Contract):
         self.vars_map, self.vars_errs = fresh('coerced_map', VL), fresh('variable_errors', VL)
         return self.A
 
-    def defs(self):
-        return V.items(attr0(self.A['document'], 'definitions'))
+    def defs(self, A=None):
+        return V.items(attr0((A or self.A)['document'], 'definitions'))
 
     def pre(self, A, st):
         d = A['document']
-        return [('document', z3.And(exact(d, 'DocumentNode'), V.oref(d) >= 0, V.is_List(attr0(d, 'definitions')), AllDefinitions(self.defs()))),
+        return [('document', z3.And(exact(d, 'DocumentNode'), V.oref(d) >= 0, V.is_List(attr0(d, 'definitions')), AllDefinitions(self.defs(A)))),
                 ('operation_name', z3.Or(A['operation_name'] == V.None_, V.is_Str(A['operation_name']))),
                 ('variables', z3.Or(A['raw_variable_values'] == V.None_, V.is_Dict(A['raw_variable_values'])))]
 
@@ -412,7 +412,7 @@ class BuildExecutionContext(Contract):
             return never_raises(out)
         r = out.value
         ctx, errs = nth(V.titems(r), 0), nth(V.titems(r), 1)
-        sel = selected_operation(self.defs(), A['operation_name'])
+        sel = selected_operation(self.defs(A), A['operation_name'])
         g = out.st.ghost
         var_failed = z3.Not(VL.is_nil(self.vars_errs))
         aborted = z3.Or(sel == V.None_, var_failed)
